@@ -481,6 +481,11 @@ impl Controller for Bbr {
         self.min_cwnd = calculate_min_window(self.current_mtu);
         self.init_cwnd = self.config.initial_window.max(self.min_cwnd);
         self.cwnd = self.cwnd.max(self.min_cwnd);
+        // While in loss recovery the reported window is capped by `recovery_window`, which must
+        // respect the new minimum as well.
+        if self.recovery_window != 0 {
+            self.recovery_window = self.recovery_window.max(self.min_cwnd);
+        }
     }
 
     fn window(&self) -> u64 {
